@@ -3,7 +3,7 @@
    block path (handle_breaches) and late-appointment path (store_triggered_appointment),
    and the justification of every sendrawtransaction of a step.  Lemmas only; the statements
    are collected in Properties/C01_breach.v and Properties/C02_sends.v. *)
-From TeosModel Require Import Base ListAux TxIndex TxIndexProofs Tower TowerStable TowerInv.
+From TeosModel Require Import Base ListAux TxIndex TxIndexProofs Tower TowerStable TowerInv TowerProofs.
 From TeosModel.Gen Require Consts.
 From Coq Require Import Lia.
 Local Open Scope N_scope.
@@ -1423,3 +1423,214 @@ Section Responder.
       intros u Hu. destruct (Hr u Hu) as [[]|H]. exact H.
   Qed.
 End Responder.
+
+(* ------------------------------------------------------------------------------------------ *)
+(* 6. Gatekeeper listener, and the Connect step as the composition of the three listeners *)
+
+(* everything the gatekeeper's listener does not touch *)
+Definition same_engine (t t' : tower) : Prop :=
+  cfg t = cfg t' /\ w_height t = w_height t' /\ w_cache t = w_cache t' /\ r_index t = r_index t' /\
+  car_height t = car_height t' /\ car_memo t = car_memo t' /\ reorged t = reorged t' /\ rpc_log t = rpc_log t'.
+
+Lemma gk_block_connected_spec t h tg :
+  gk_block_connected t h = Ok tt tg ->
+  exists out, outdated_users (c_delta (cfg t)) h (gk_users t) = Some out /\
+    db_users tg = filter (fun r => negb (memN (fst r) out)) (db_users t) /\
+    db_apps tg = filter (fun a => negb (memN (a_user a) out)) (db_apps t) /\
+    db_trks tg = filter (fun k => negb (memN (t_user k) out)) (db_trks t) /\
+    same_engine t tg /\ gk_height tg = h.
+Proof.
+  unfold gk_block_connected. destruct (outdated_users (c_delta (cfg t)) h (gk_users t)) as [out|]; [|discriminate].
+  intros H. injection H as <-. exists out. split; [reflexivity|].
+  destruct out as [|u out].
+  - cbn [db_users db_apps db_trks set_gk_height gk_height].
+    repeat split; symmetry; apply filter_all; reflexivity.
+  - repeat split.
+Qed.
+
+Lemma connect_unfold le sc hash txs h t0 :
+  run_listeners (listener_connected le sc hash txs h) Consts.LISTENER_ORDER t0 =
+  (do _, tg <- gk_block_connected t0 h;
+   do _, tw <- w_block_connected sc tg (cache_block hash txs) h;
+   do _, tr <- r_block_connected le sc tw (index_block hash txs) h;
+   Ok tt tr).
+Proof. reflexivity. Qed.
+
+Lemma inv_fresh t : Inv t -> Inv (fresh t).
+Proof. apply inv_frame. repeat split. Qed.
+
+(* a Connect step that returns: the three listeners ran in the generated order, gatekeeper first *)
+Lemma connect_ok le t hash txs sc t' x :
+  step le t (OConnect hash txs) sc = (t', x) -> not_abort x ->
+  exists tg tw,
+    gk_block_connected (fresh t) (gk_height t + 1) = Ok tt tg /\
+    w_block_connected sc tg (cache_block hash txs) (gk_height t + 1) = Ok tt tw /\
+    r_block_connected le sc tw (index_block hash txs) (gk_height t + 1) = Ok tt t'.
+Proof.
+  cbn [step]. change (set_rpc_log t []) with (fresh t). change (gk_height (fresh t)) with (gk_height t).
+  rewrite connect_unfold.
+  destruct (gk_block_connected (fresh t) (gk_height t + 1)) as [[] tg|] eqn:Eg; cbn [bind wrap];
+    [|intros H; injection H as <- <-; intros []].
+  destruct (w_block_connected sc tg (cache_block hash txs) (gk_height t + 1)) as [[] tw|] eqn:Ew; cbn [bind wrap];
+    [|intros H; injection H as <- <-; intros []].
+  destruct (r_block_connected le sc tw (index_block hash txs) (gk_height t + 1)) as [[] tr|] eqn:Er; cbn [bind wrap];
+    [|intros H; injection H as <- <-; intros []].
+  intros H _. injection H as <- <-. exists tg, tw. repeat split; assumption.
+Qed.
+
+Lemma keys_of_index_block hash txs : keys_of (ib_data (index_block hash txs)) = txs.
+Proof.
+  unfold index_block, keys_of. cbn [ib_data]. rewrite map_map. cbn [fst]. apply map_id.
+Qed.
+
+(* ------------------------------------------------------------------------------------------ *)
+(* 7. C02: every RPC of a step is justified *)
+
+(* why the tower may submit tx in the step that performs o from state t *)
+Definition just_send (t : tower) (o : op) (tx : N) : Prop :=
+  (* the decrypted penalty of an appointment whose locator is in the block being connected *)
+  (exists hash txs a, o = OConnect hash txs /\ In a (db_apps t) /\ In (a_loc a) txs /\
+                      decrypt (a_blob a) (a_loc a) = Some tx) \/
+  (* the penalty of an existing tracker (re-broadcast) *)
+  (exists k, In k (db_trks t) /\ t_penalty k = tx) \/
+  (* the dispute of an existing tracker whose confirmation was reorged out *)
+  (exists k, In k (db_trks t) /\ mem_uuid (trk_uuid k) (reorged t) = true /\ t_dispute k = tx) \/
+  (* the decrypted penalty of the appointment being added, its dispute being in the cache *)
+  (exists u loc b delay sig d, o = OAdd (Some u) loc b delay sig /\ ti_get (w_cache t) loc = Some d /\
+                               decrypt b d = Some tx) \/
+  (* corner, unreachable (see reorged_tracked below): the dispute — confirmed in the block being
+     connected — of an appointment responded to in this very step whose uuid is in `reorged`
+     although it has no tracker *)
+  (exists hash txs a, o = OConnect hash txs /\ In a (db_apps t) /\ In (a_loc a) txs /\ a_loc a = tx /\
+                      find_trk (db_trks t) (app_uuid a) = None /\ mem_uuid (app_uuid a) (reorged t) = true).
+
+(* the mempool is only queried about penalties the tower is about to submit *)
+Definition just_getraw (t : tower) (o : op) (tx : N) : Prop :=
+  (exists hash txs a, o = OConnect hash txs /\ In a (db_apps t) /\ In (a_loc a) txs /\
+                      decrypt (a_blob a) (a_loc a) = Some tx) \/
+  (exists u loc b delay sig d, o = OAdd (Some u) loc b delay sig /\ ti_get (w_cache t) loc = Some d /\
+                               decrypt b d = Some tx).
+
+Definition just_rpc (t : tower) (o : op) (e : rpc_event) : Prop :=
+  match r_kind e with
+  | K_send => just_send t o (r_tx e)
+  | K_getraw => just_getraw t o (r_tx e)
+  end.
+
+(* no_send_for_purged: in a Connect step the gatekeeper's purge comes first (generated listener
+   order) and every RPC of the step is justified by the rows that are left after it *)
+Theorem connect_rpcs_justified le t hash txs sc t' x :
+  Inv t -> step le t (OConnect hash txs) sc = (t', x) -> not_abort x ->
+  exists tg, gk_block_connected (fresh t) (gk_height t + 1) = Ok tt tg /\
+             forall e, In e (rpc_log t') -> just_rpc tg (OConnect hash txs) e.
+Proof.
+  intros HI Hstep Hna. destruct (connect_ok le t hash txs sc t' x Hstep Hna) as [tg [tw [Eg [Ew Er]]]].
+  exists tg. split; [exact Eg|].
+  assert (HIg : Inv tg).
+  { pose proof (gk_block_connected_pres Inv (sa_block Inv inv_stable) (fresh t) (gk_height t + 1) (inv_fresh t HI)) as Hp.
+    rewrite Eg in Hp. exact Hp. }
+  destruct (gk_block_connected_spec _ _ _ Eg) as [out [_ [_ [_ [_ [Heng _]]]]]].
+  assert (Hlg : rpc_log tg = []) by (symmetry; apply Heng).
+  destruct (w_block_connected_frame sc tg hash txs _ tw HIg Ew)
+    as [_ [_ [_ [_ [_ [_ [_ [Hre [_ [_ [Hnewk [evw [Hlw Hjw]]]]]]]]]]]]].
+  pose proof (r_block_connected_rinv tw txs _ le sc _ t' (keys_of_index_block hash txs) Er) as RI.
+  destruct (ri_log _ _ _ _ RI) as [evr [Hlr Hjr]].
+  intros e He. rewrite Hlr, Hlw, Hlg, app_nil_r in He. apply in_app_or in He. destruct He as [He|He].
+  - destruct (Hjr e He) as [Hk [k [Hik Hcase]]]. unfold just_rpc. rewrite Hk. unfold just_send.
+    destruct (Hnewk k Hik) as [Hold|[a [Ha Hm]]].
+    + destruct Hcase as [Hp|[Hd HR]].
+      * right. left. exists k. split; [exact Hold|symmetry; exact Hp].
+      * right. right. left. exists k. split; [exact Hold|]. split; [|symmetry; exact Hd].
+        apply mem_uuid_In. rewrite <- Hre. exact HR.
+    + destruct Hm as [HD [Hu [Hdis [Hdec [_ [_ Hfresh]]]]]].
+      destruct Hcase as [Hp|[Hd HR]].
+      * left. exists hash, txs, a. repeat split; [exact Ha|exact HD|]. rewrite Hp. exact Hdec.
+      * right. right. right. right. exists hash, txs, a. repeat split; [exact Ha|exact HD|congruence|congruence|].
+        apply mem_uuid_In. rewrite <- Hu, <- Hre. exact HR.
+  - destruct (Hjw e He) as [a [Ha [Hl Hdec]]]. unfold just_rpc.
+    destruct (r_kind e); left; exists hash, txs, a; repeat split; assumption.
+Qed.
+
+Lemma just_rpc_purge t h tg o e :
+  gk_block_connected (fresh t) h = Ok tt tg -> just_rpc tg o e -> just_rpc t o e.
+Proof.
+  intros Eg. destruct (gk_block_connected_spec _ _ _ Eg) as [out [_ [_ [Ha [Hk [Heng _]]]]]].
+  cbn [db_apps db_trks fresh set_rpc_log] in Ha, Hk. unfold same_engine in Heng. cbn in Heng.
+  assert (Hia : forall a, In a (db_apps tg) -> In a (db_apps t)) by (intros a; rewrite Ha, filter_In; tauto).
+  assert (Hik : forall k, In k (db_trks tg) -> In k (db_trks t)) by (intros k; rewrite Hk, filter_In; tauto).
+  assert (Hre : reorged t = reorged tg) by apply Heng.
+  assert (Hca : w_cache t = w_cache tg) by apply Heng.
+  assert (Hg : just_getraw tg o (r_tx e) -> just_getraw t o (r_tx e)).
+  { intros [[hash [txs [a H]]]|[u [loc [b [delay [sig [d H]]]]]]].
+    - left. exists hash, txs, a. intuition.
+    - right. exists u, loc, b, delay, sig, d. rewrite Hca. exact H. }
+  unfold just_rpc. destruct (r_kind e); [exact Hg|].
+  intros [[hash [txs [a H]]]|[[k H]|[[k H]|[[u [loc [b [delay [sig [d H]]]]]]|[hash [txs [a H]]]]]]].
+  - left. exists hash, txs, a. intuition.
+  - right. left. exists k. intuition.
+  - right. right. left. exists k. rewrite Hre. intuition.
+  - right. right. right. left. exists u, loc, b, delay, sig, d. rewrite Hca. exact H.
+  - right. right. right. right. exists hash, txs, a. rewrite Hre.
+    destruct H as [Ho [Hin [Hl [Htx [Hf HR]]]]]. repeat split; auto.
+    apply find_trk_None_iff. intros Hi. apply in_map_iff in Hi. destruct Hi as [k [Hu Hkin]].
+    apply (find_trk_None _ _ Hf). rewrite <- Hu. apply in_map. rewrite Hk. apply filter_In. split; [exact Hkin|].
+    rewrite Ha in Hin. apply filter_In in Hin. destruct Hin as [_ Hin].
+    assert (t_user k = a_user a) by (unfold trk_uuid, app_uuid in Hu; congruence). congruence.
+Qed.
+
+Lemma add_update_user_log t u :
+  match gk_add_update_user t u with Ok _ t' | Abort _ t' => rpc_log t' = rpc_log t end.
+Proof.
+  unfold gk_add_update_user. destruct (gk_get t u) as [ui|].
+  - destruct (u32_add (u_slots ui) (c_slots (cfg t))); reflexivity.
+  - destruct (u32_add (gk_height t) (c_duration (cfg t))); [|reflexivity].
+    destruct (amem (db_users t) u); reflexivity.
+Qed.
+
+Lemma disconnect_log hash h t :
+  match run_listeners (listener_disconnected hash h) Consts.LISTENER_ORDER t with
+  | Ok _ t' | Abort _ t' => rpc_log t' = rpc_log t /\ db_trks t' = db_trks t
+  end.
+Proof.
+  change (run_listeners (listener_disconnected hash h) Consts.LISTENER_ORDER t) with
+    (do _, t1 <- gk_block_disconnected t h; do _, t2 <- w_block_disconnected t1 hash h;
+     do _, t3 <- r_block_disconnected t2 hash h; Ok tt t3).
+  unfold gk_block_disconnected, w_block_disconnected, r_block_disconnected.
+  destruct (u32_sub h 1); cbn; split; reflexivity.
+Qed.
+
+(* C02, every_send_justified: whatever the operation, the node answers and the state (satisfying
+   the structural invariant), every RPC in the log of the step is justified by the state the step
+   started from.  API reads, registrations and disconnections issue no RPC at all. *)
+Theorem every_rpc_justified le t o sc t' x :
+  Inv t -> step le t o sc = (t', x) -> not_abort x ->
+  forall e, In e (rpc_log t') -> just_rpc t o e.
+Proof.
+  intros HI Hstep Hna. destruct o as [u|signer loc b delay sig|signer loc|signer|hash txs|].
+  - cbn [step] in Hstep. pose proof (add_update_user_log (set_rpc_log t []) u) as Hl.
+    destruct (gk_add_update_user (set_rpc_log t []) u); cbn [wrap] in Hstep; injection Hstep as <- <-;
+      rewrite Hl; intros e [].
+  - cbn [step] in Hstep. change (set_rpc_log t []) with (fresh t) in Hstep.
+    destruct (w_add_appointment sc (fresh t) signer loc b delay sig) as [r t1|] eqn:Ew; cbn [wrap] in Hstep;
+      injection Hstep as <- <-; [|destruct Hna].
+    destruct (ti_get (w_cache t) loc) as [d|] eqn:Ec.
+    + pose proof (add_appointment_triggered sc (fresh t) signer loc b delay sig d r t1 Ec Ew) as H.
+      destruct r; try (rewrite H; intros e []).
+      destruct H as [u [Hs [_ [_ [_ [_ Hcase]]]]]]. subst signer.
+      destruct (decrypt b d) as [p|] eqn:Ed; [|destruct Hcase as [_ ->]; intros e []].
+      destruct Hcase as [Hl _]. rewrite Hl. cbn [rpc_log fresh set_rpc_log]. rewrite app_nil_r.
+      intros e He. apply breach_events_tx in He. unfold just_rpc.
+      destruct (r_kind e); [right|right; right; right; left]; exists u, loc, b, delay, sig, d; rewrite He; auto.
+    + pose proof (add_appointment_stored sc (fresh t) signer loc b delay sig r t1 Ec Ew) as H.
+      destruct r; try (rewrite H; intros e []).
+      destruct H as [u [_ [_ [_ [_ [_ [_ [-> _]]]]]]]]. intros e [].
+  - destruct (get_unchanged le t sc signer loc) as [r Hr]. rewrite Hr in Hstep. injection Hstep as <- <-. intros e [].
+  - destruct (getsub_unchanged le t sc signer) as [r Hr]. rewrite Hr in Hstep. injection Hstep as <- <-. intros e [].
+  - destruct (connect_rpcs_justified le t hash txs sc t' x HI Hstep Hna) as [tg [Eg Hj]].
+    intros e He. eapply just_rpc_purge; [exact Eg|]. apply Hj. exact He.
+  - cbn [step] in Hstep. destruct (last_hash (set_rpc_log t [])) as [hash|].
+    + pose proof (disconnect_log hash (gk_height (set_rpc_log t [])) (set_rpc_log t [])) as Hl.
+      destruct (run_listeners _ _ _); cbn [wrap] in Hstep; injection Hstep as <- <-;
+        destruct Hl as [-> _]; intros e [].
+    + injection Hstep as <- <-. intros e [].
+Qed.
